@@ -20,7 +20,8 @@ from simgriffe import core
 from simgriffe.seams import World, purge_modules
 
 PK, EXT, PRIV, EXT2 = "c15pk", "c15ext", "_c15pk", "c15ext2"
-WORLD_TOPS = {PK, EXT, PRIV, EXT2, "c15missingdep"}
+PYC_TOP = "c15pyc"  # a top-level module that exists only as (real, importable) sourceless bytecode
+WORLD_TOPS = {PK, EXT, PRIV, EXT2, PYC_TOP, "c15missingdep"}
 FAULTS = ["exception", "importerror", "systemexit", "sysexit", "kbi", "missingdep", "recursion", "baseexc"]
 COMPILED_SUFFIXES = (".so", ".pyd", ".pyc")
 
@@ -87,6 +88,8 @@ def generate(rng, opts):
         names += [f"{PK}.sub", f"{PK}.sub.d"]
     # the analysed package declares itself a pkgutil-style namespace package (its __init__ really runs `extend_path`)
     cfg["pkgutil_init"] = rng.random() < 0.2
+    # the import system can import it, the static finder cannot see it
+    cfg["pyc_top"] = rng.random() < 0.2
     std = None
     if rng.random() < 0.25:
         # a sub-package named like a standard-library package, holding compiled modules named like that package's own
@@ -121,7 +124,7 @@ def generate(rng, opts):
         op = {
             "api": rng.choice(["load", "load", "loader", "dump", "main", "check", "check_main"]),
             "base_ref": rng.choice([None, "v2"]),
-            "target": rng.choice([PK, PK, PK, "path", "c15nothere", EXT, f"{PK}.a"]),
+            "target": rng.choice([PK, PK, PK, "path", "c15nothere", EXT, f"{PK}.a"] + ([PYC_TOP, f"{PYC_TOP}.fast", f"{PYC_TOP}.fast"] if cfg["pyc_top"] else [])),
             "allow_inspection": inspect_mode != "static",
             "force_inspection": inspect_mode == "force",
             "resolve_aliases": rng.random() < 0.6,
@@ -135,7 +138,7 @@ def generate(rng, opts):
         }
         ops.append(op)
     # a long-lived process does not clean sys.modules between two loads
-    return {"world": {"modules": modules, "compiled": compiled, "stubs": stubs, "pkgutil_init": cfg["pkgutil_init"]}, "ops": ops, "cfg": cfg, "keep_modules": rng.random() < 0.4,
+    return {"world": {"modules": modules, "compiled": compiled, "stubs": stubs, "pkgutil_init": cfg["pkgutil_init"], "pyc_top": cfg["pyc_top"]}, "ops": ops, "cfg": cfg, "keep_modules": rng.random() < 0.4,
             # the user (or the tool embedding Griffe) already has the package directory on sys.path
             "sp_on_sys_path": rng.random() < 0.3}
 
@@ -189,6 +192,9 @@ def render_world(world):
             files[rel] = ("# -*- coding: latin-1 -*-\n# caf\xe9\n" + "\n".join(lines) + "\n").replace("<ROOT>", "<ROOT>").encode("latin-1")
         else:
             files[rel] = "\n".join(lines) + "\n"
+    if world.get("pyc_top"):
+        # compiled to sourceless bytecode when the world is set up (the path of the sentinel is only known then)
+        files[f"{PYC_TOP}.py"] = "\n".join(["import os", f"open(os.path.join('<ROOT>', 'sp0', 'sent', {PYC_TOP!r}), 'w').close()", "", "def fast():", "    return 1", ""])
     import importlib.machinery as mach
 
     for c in world["compiled"]:
@@ -400,6 +406,12 @@ def execute(plan, ctx):
     with World(files, tag="c15-") as w:
         sp = w.sp_dirs[0]
         sent_dir = os.path.join(sp, "sent")
+        if world.get("pyc_top"):
+            import py_compile
+
+            src = os.path.join(sp, f"{PYC_TOP}.py")
+            py_compile.compile(src, cfile=os.path.join(sp, f"{PYC_TOP}.pyc"), doraise=True)
+            os.remove(src)
         _audit["root"] = w.root
         import tempfile
 
